@@ -17,7 +17,7 @@ out = {
   "engines": [
     {"name": "mc", "path": "/verif/mc", "serves_properties": [c["id"] for c in checks["checks"] if c["id"] != "C20"],
      "kind_free_text": "bounded exhaustive enumeration / explicit-state BFS driver; the subject (mech-core, mech-syntax, mech-interpreter built from /repo's working tree) runs only in worker subprocesses under an address-space cap and a per-unit wall-clock budget; every case is judged against a reference model written in the harness"},
-    {"name": "mcfs", "path": "/verif/mc", "serves_properties": ["C20"],
+    {"name": "mcfs", "path": "/verif/mc", "serves_properties": ["C19", "C20"],
      "kind_free_text": "the same harness built with feature `fs`, which links the top-level `mech` crate for mech::read_mech_source_file"},
   ],
   "checks": [],
@@ -33,7 +33,7 @@ for c in checks["checks"]:
     "thorough_cmd": "./check %s thorough" % c["id"],
     "evidence_file": "/verif/evidence/%s.json" % c["id"],
     "replay_cmd_template": "./check replay {path}",
-    "engine": "mcfs" if c["id"] == "C20" else "mc",
+    "engine": "mcfs" if c["id"] in ("C19", "C20") else "mc",
     "level_claimed": {"category": c["level"], "text": c["text"], "design_ref": "DESIGN.md section 4, %s" % c["id"]},
     "level_note": c["note"],
     "technique": c["technique"],
